@@ -25,7 +25,7 @@ func init() {
 		Assume: []string{
 			"reference model ref/zone (RFC 1035 §5.1, RFC 2308 §4, BIND ARM $GENERATE, as restated in the C06 statement) is the oracle; it shares no code with scan.go/generate.go",
 			"records are compared abstractly from the typed fields (*dns.A.A, *dns.MX.Preference/Mx, *dns.TXT.Txt, *dns.SOA.*, *dns.NS.Ns, *dns.CNAME.Target), names as wire labels via ref/name, TXT strings after un-escaping \\DDD and \\X with the harness's own reader",
-			"not demanded (DESIGN C06): the TTL a $GENERATE body inherits; owner/TTL carry-over across the end of an $INCLUDE or $GENERATE; the owner an omitted owner repeats when no owner was stated before in the same file; $INCLUDE nesting deeper than the documented 7; negative ${offset} values; in these places the model marks the field or the rest of the program unspecified and only agreement between renderings is checked",
+			"not demanded (DESIGN C06): the TTL a $GENERATE body inherits when no TTL is in force at all (no $TTL, none stated, none configured); owner/TTL carry-over across the end of an $INCLUDE or $GENERATE; the owner an omitted owner repeats when no owner was stated before in the same file; $INCLUDE nesting deeper than the documented 7; negative ${offset} values; in these places the model marks the field or the rest of the program unspecified and only agreement between renderings is checked",
 			"every non-plain rendering is compared with the plain rendering of the same program (which is compared with the model), so a semantic finding is reported once under its own key and not once per rendering",
 			"relative $INCLUDE paths: all files live in the directory of the including file, so that no resolution rule is assumed",
 		},
